@@ -73,7 +73,11 @@ def gen_plan(rng, opts=None):
     if rng.random() < 0.25:
         # a purge of the very dataset a disk job is working on, sent the moment the n-th such job starts
         timed = [[rng.choice(["_page_out", "_page_out", "_page_in"]), rng.randint(1, 3)] for _ in range(rng.choice([1, 1, 2]))]
-    return dict(cap=cap, keys=keys, ops=ops, faults=faults, line=rng.random() < 0.7, reuse=o["reuse"], devshm=devshm, timed_purges=timed)
+    stalls = []
+    if rng.random() < 0.2:
+        # the server process is descheduled for a while at its n-th seam (answers are late, requests queue up)
+        stalls = [[rng.randint(3, 150), rng.choice([300, 2500, 2500, 7000])] for _ in range(rng.choice([1, 1, 2]))]
+    return dict(cap=cap, keys=keys, ops=ops, faults=faults, line=rng.random() < 0.7, reuse=o["reuse"], devshm=devshm, timed_purges=timed, stalls=stalls)
 
 
 def _payload(key, ci, oi, size):
@@ -498,6 +502,18 @@ def run(plan, ch, want_log=False):
                         trig["alive"] -= 1
                 SimProc(K, f"trig{trig['n']}", root).start(go)
     K.handlers["pool_job_start"].append(on_job_start_trigger)
+    stalls = [list(x) + [False] for x in plan.get("stalls", [])]
+
+    def stall_hook(thread, kind, args):
+        p = thread.proc
+        if p.name != "shm" or thread is not p.main:
+            return
+        for st_ in stalls:
+            if not st_[2] and p.nseam >= st_[0] and len(done) < len(plan["ops"]):
+                st_[2] = True
+                K.stall(p, st_[1] * 1_000_000)
+    if stalls:
+        K.seam_hooks.append(stall_hook)
 
     def _drain():
         # drain phase: every handle is closed (or its holder is dead), faults have stopped; advance past the staleness windows;
